@@ -10,6 +10,7 @@ import (
 	"fmt"
 	"io/fs"
 	"os"
+	"path"
 	"path/filepath"
 	"runtime"
 	"strings"
@@ -178,21 +179,17 @@ func (fst *FSTree) Query(q *query.Query, local, internal bool) (*iterator.Iterat
 		return nil, fmt.Errorf("invalid query: %w", err)
 	}
 
-	walkPrefix, err := fst.buildFilePath(q.DatabaseKeyPrefix(), false)
+	// The key prefix itself must be in scope.
+	_, err = fst.buildFilePath(q.DatabaseKeyPrefix(), false)
 	if err != nil {
 		return nil, err
 	}
-	fileInfo, err := os.Stat(walkPrefix)
-	var walkRoot string
-	switch {
-	case err == nil && fileInfo.IsDir():
-		walkRoot = walkPrefix
-	case err == nil:
-		walkRoot = filepath.Dir(walkPrefix)
-	case errors.Is(err, fs.ErrNotExist):
-		walkRoot = filepath.Dir(walkPrefix)
-	default: // err != nil
-		return nil, fmt.Errorf("fstree: could not stat query root %s: %w", walkPrefix, err)
+
+	// All keys that start with the key prefix live below the directory part of
+	// the prefix, eg. below "a" for the prefixes "a/b", "a/" and "a/b/".
+	walkRoot, err := fst.buildFilePath(path.Dir(q.DatabaseKeyPrefix()), false)
+	if err != nil {
+		return nil, err
 	}
 
 	queryIter := iterator.New()
@@ -221,6 +218,15 @@ func (fst *FSTree) queryExecutor(walkRoot string, queryIter *iterator.Iterator, 
 			return nil
 		}
 
+		// check if the key matches the key prefix of the query
+		key, err := filepath.Rel(fst.basePath, path)
+		if err != nil {
+			return fmt.Errorf("fstree: failed to extract key from filepath %s: %w", path, err)
+		}
+		if !q.MatchesKey(key) {
+			return nil
+		}
+
 		// read file
 		data, err := os.ReadFile(path)
 		if err != nil {
@@ -231,10 +237,6 @@ func (fst *FSTree) queryExecutor(walkRoot string, queryIter *iterator.Iterator, 
 		}
 
 		// parse
-		key, err := filepath.Rel(fst.basePath, path)
-		if err != nil {
-			return fmt.Errorf("fstree: failed to extract key from filepath %s: %w", path, err)
-		}
 		r, err := record.NewRawWrapper(fst.name, key, data)
 		if err != nil {
 			return fmt.Errorf("fstree: failed to load file %s: %w", path, err)
